@@ -867,3 +867,311 @@ fn dedup(v: Vec<Violation>) -> Vec<Violation> {
     }
     out
 }
+
+// ======================================================================================= C05
+
+fn recon_i32(b: &[u8]) -> Option<i32> {
+    std::str::from_utf8(b).ok().and_then(|t| parse_recognize::<i32>(t, false).ok())
+}
+
+fn recon_key(item: &str, b: &[u8]) -> Option<String> {
+    let t = std::str::from_utf8(b).ok()?;
+    if item == "smap" {
+        parse_recognize::<String>(t, false).ok()
+    } else {
+        parse_recognize::<i32>(t, false).ok().map(|k| k.to_string())
+    }
+}
+
+const PERSISTENT_VALUE_LANES: [&str; 1] = ["val"];
+const PERSISTENT_MAP_LANES: [&str; 3] = ["map", "bmap", "smap"];
+
+/// Persistence oracle: store-before-send during the run, and restoration after a restart.
+pub fn check_persistence(rec: &RunRecord) -> Vec<Violation> {
+    use super::store::StoreOp;
+    let mut out = vec![];
+    if !rec.scenario.knobs.persistent {
+        return out;
+    }
+    // Decoded store log.
+    #[derive(Debug)]
+    enum Dec {
+        Put(String, i32),
+        Upd(String, String, i32),
+        Rem(String, String),
+        Clr(String),
+        Other,
+    }
+    let mut log: Vec<(u64, Dec)> = vec![];
+    for (step, op) in rec.store_log.iter() {
+        let d = match op {
+            StoreOp::Put { item, value } => match recon_i32(value) {
+                Some(v) => Dec::Put(item.clone(), v),
+                None => {
+                    out.push(Violation::new("C05", "C05.store_garbage", "value", format!("put {item} with undecodable bytes {:?}", body_text(value))));
+                    Dec::Other
+                }
+            },
+            StoreOp::Update { item, key, value } => match (recon_key(item, key), recon_i32(value)) {
+                (Some(k), Some(v)) => Dec::Upd(item.clone(), k, v),
+                _ => {
+                    out.push(Violation::new("C05", "C05.store_garbage", "map", format!("update {item} with undecodable bytes {:?} -> {:?}", body_text(key), body_text(value))));
+                    Dec::Other
+                }
+            },
+            StoreOp::Remove { item, key } => match recon_key(item, key) {
+                Some(k) => Dec::Rem(item.clone(), k),
+                None => Dec::Other,
+            },
+            StoreOp::Clear { item } => Dec::Clr(item.clone()),
+            StoreOp::Delete { .. } => Dec::Other,
+        };
+        log.push((*step, d));
+    }
+    // Transient items must never reach the store.
+    for (_, op) in rec.store_log.iter() {
+        let item = match op {
+            StoreOp::Put { item, .. } | StoreOp::Delete { item } | StoreOp::Update { item, .. } | StoreOp::Remove { item, .. } | StoreOp::Clear { item } => item,
+        };
+        if ["tval", "tmap", "tvstore", "sup", "cmd", "ctl"].contains(&item.as_str()) {
+            out.push(Violation::new("C05", "C05.transient_persisted", item, format!("transient item {item} was handed to the store")));
+        }
+    }
+
+    // ---- C05.before_send: every frame read for a persistent lane was handed to the store earlier.
+    for f in rec.hist.frames.iter() {
+        let FrameKind::Event(body) = &f.kind else { continue };
+        let epoch_base = if f.epoch == 0 { 0 } else { rec.restart_step.unwrap_or(0) };
+        let _ = epoch_base;
+        if PERSISTENT_VALUE_LANES.contains(&f.lane.as_str()) {
+            let Some(v) = std::str::from_utf8(body).ok().and_then(|t| t.parse::<i32>().ok()) else { continue };
+            // The initial / restored value is never re-sent to the store before it is published by a sync.
+            let init = value_truth(rec, f.epoch as usize, &f.lane).first().map(|(_, v)| *v);
+            let stored = log.iter().any(|(s, d)| *s < f.step && matches!(d, Dec::Put(i, pv) if i == &f.lane && *pv == v));
+            if !stored && init != Some(v) {
+                out.push(Violation::new("C05", "C05.before_send", "value", format!(
+                    "peer {} read {} = {v} at step {} but no put_value of it had been handed to the store before", f.peer, f.lane, f.step)));
+            }
+        } else if PERSISTENT_MAP_LANES.contains(&f.lane.as_str()) {
+            let Some(ev) = parse_map_event(&f.lane, body) else { continue };
+            let (init, _) = map_truth(rec, f.epoch as usize, &f.lane);
+            let stored = match &ev {
+                MapEv::Update(k, v) => {
+                    init.get(k) == Some(v) || log.iter().any(|(s, d)| *s < f.step && matches!(d, Dec::Upd(i, dk, dv) if i == &f.lane && dk == k && dv == v))
+                }
+                MapEv::Remove(k) => log.iter().any(|(s, d)| *s < f.step && matches!(d, Dec::Rem(i, dk) if i == &f.lane && dk == k)),
+                MapEv::Clear => log.iter().any(|(s, d)| *s < f.step && matches!(d, Dec::Clr(i) if i == &f.lane)),
+            };
+            if !stored {
+                out.push(Violation::new("C05", "C05.before_send", "map", format!(
+                    "peer {} read {} {:?} at step {} but the operation had not been handed to the store before", f.peer, f.lane, ev, f.step)));
+            }
+        }
+    }
+
+    // ---- Restart.
+    let (Some(img), Some(t1)) = (rec.store_at_restart.as_ref(), rec.truth.get(1)) else { return out };
+    let restored = t1.iter().find_map(|(_, e)| match e {
+        TruthEv::Restored { val, tval, vstore, tvstore, map, bmap, tmap, smap, mstore } => Some((*val, *tval, *vstore, *tvstore, map.clone(), bmap.clone(), tmap.clone(), smap.clone(), mstore.clone())),
+        _ => None,
+    });
+    let Some((val, tval, vstore, tvstore, map, bmap, tmap, smap, mstore)) = restored else {
+        // The second incarnation did not even start.
+        if rec.agent_ends.get(1).map(|e| e.is_some()).unwrap_or(false) || rec.quiescent2_step.is_some() {
+            out.push(Violation::new("C05", "C05.restart_failed", "", format!("the restarted agent never ran on_start: {:?}", rec.agent_ends.get(1))));
+        }
+        return out;
+    };
+    let img_val = |name: &str| img.values.get(name).and_then(|b| recon_i32(b));
+    let img_map = |name: &str| -> BTreeMap<String, i32> {
+        img.maps
+            .get(name)
+            .map(|m| m.iter().filter_map(|(k, v)| Some((recon_key(name, k)?, recon_i32(v)?))).collect())
+            .unwrap_or_default()
+    };
+    for (name, got) in [("val", val), ("vstore", vstore)] {
+        let want = img_val(name).unwrap_or(0);
+        if got != want {
+            out.push(Violation::new("C05", "C05.restore_value", name, format!("{name} came back as {got} but the last value handed to the store was {want}")));
+        }
+    }
+    let i32map = |m: &BTreeMap<i32, i32>| -> BTreeMap<String, i32> { m.iter().map(|(k, v)| (k.to_string(), *v)).collect() };
+    for (name, got) in [("map", i32map(&map)), ("bmap", i32map(&bmap)), ("smap", smap.clone()), ("mstore", i32map(&mstore))] {
+        let want = img_map(name);
+        if got != want {
+            out.push(Violation::new("C05", "C05.restore_map", name, format!("{name} came back as {:?} but the operations handed to the store imply {:?}", got, want)));
+        }
+    }
+    if tval != 0 || tvstore != 0 || !tmap.is_empty() {
+        out.push(Violation::new("C05", "C05.transient", "", format!("transient items came back as tval={tval} tvstore={tvstore} tmap={:?}", tmap)));
+    }
+    // Nothing restored is older than what a subscriber had already seen.
+    let h0 = value_truth(rec, 0, "val");
+    let idx = |v: i32| h0.iter().position(|(_, x)| *x == v);
+    let seen_max = rec
+        .hist
+        .frames
+        .iter()
+        .filter(|f| f.epoch == 0 && f.lane == "val")
+        .filter_map(|f| match &f.kind {
+            FrameKind::Event(b) => std::str::from_utf8(b).ok().and_then(|t| t.parse::<i32>().ok()).and_then(idx),
+            _ => None,
+        })
+        .max();
+    if let (Some(seen), Some(back)) = (seen_max, idx(val)) {
+        if back < seen {
+            out.push(Violation::new("C05", "C05.not_older", "value", format!("val came back as {val} (index {back}) but a subscriber had already seen index {seen}")));
+        }
+    }
+    // What the fresh peer observes after the restart is the restored state.
+    let mut seen_val: Option<i32> = None;
+    let mut seen_maps: BTreeMap<String, BTreeMap<String, i32>> = BTreeMap::new();
+    let mut synced: BTreeSet<String> = BTreeSet::new();
+    for f in rec.hist.frames.iter().filter(|f| f.epoch == 1) {
+        match &f.kind {
+            FrameKind::Event(b) => {
+                if f.lane == "val" {
+                    seen_val = std::str::from_utf8(b).ok().and_then(|t| t.parse::<i32>().ok());
+                } else if MAP_LANES.contains(&f.lane.as_str()) {
+                    if let Some(ev) = parse_map_event(&f.lane, b) {
+                        apply(seen_maps.entry(f.lane.clone()).or_default(), &ev);
+                    }
+                }
+            }
+            FrameKind::Synced => {
+                synced.insert(f.lane.clone());
+            }
+            _ => {}
+        }
+    }
+    if rec.quiescent2_step.is_some() {
+        if synced.contains("val") && seen_val != Some(val) {
+            out.push(Violation::new("C05", "C05.restore_observed", "val", format!("after restart a sync of val gave {:?} but the lane was restored to {val}", seen_val)));
+        }
+        for (name, want) in [("map", i32map(&map)), ("bmap", i32map(&bmap)), ("smap", smap)] {
+            if synced.contains(name) {
+                let got = seen_maps.get(name).cloned().unwrap_or_default();
+                if got != want {
+                    out.push(Violation::new("C05", "C05.restore_observed", name, format!("after restart a sync of {name} gave {:?} but the lane was restored to {:?}", got, want)));
+                }
+            }
+        }
+    }
+    dedup(out)
+}
+
+// ======================================================================================= C20
+
+/// Introspection oracle: at every idle point the reported uplink counts equal the number of
+/// links that are open according to the frames the remotes have read; counters lose nothing.
+pub fn check_reporting(rec: &RunRecord) -> Vec<Violation> {
+    let mut out = vec![];
+    if !rec.scenario.knobs.reporting || rec.hist.reports.is_empty() {
+        return out;
+    }
+    // Peers whose view is unreliable from some step on.
+    let mut unreliable_from: HashMap<u32, u64> = HashMap::new();
+    for s in rec.hist.sent.iter().filter(|s| s.epoch == 0) {
+        if matches!(s.op, Op::CloseRead | Op::CloseWrite) || !s.ok {
+            let e = unreliable_from.entry(s.peer).or_insert(s.start);
+            *e = (*e).min(s.start);
+        }
+    }
+    // Frozen peers have not read what was sent to them: unreliable until the drain.
+    let drain = rec.drain_step.unwrap_or(u64::MAX);
+    let frozen: HashMap<u32, u64> = rec.hist.freezes.iter().map(|(s, p)| (*p, *s)).collect();
+    let end_of_clean_life = rec.stop_step.or(rec.crash_step).unwrap_or(u64::MAX);
+
+    let mut steps: Vec<u64> = rec.hist.reports.iter().map(|r| r.step).collect();
+    steps.sort();
+    steps.dedup();
+    for step in steps {
+        if step > end_of_clean_life {
+            continue;
+        }
+        // Links open at `step` according to the frames read.
+        let mut sure: BTreeMap<String, u64> = BTreeMap::new();
+        let mut maybe: BTreeMap<String, u64> = BTreeMap::new();
+        let mut by_pl: BTreeMap<(u32, String), bool> = BTreeMap::new();
+        for f in rec.hist.frames.iter().filter(|f| f.epoch == 0 && f.step <= step) {
+            match f.kind {
+                FrameKind::Linked => {
+                    by_pl.insert((f.peer, f.lane.clone()), true);
+                }
+                FrameKind::Unlinked(_) => {
+                    by_pl.insert((f.peer, f.lane.clone()), false);
+                }
+                _ => {}
+            }
+        }
+        let mut any_uncertain_peer = false;
+        for p in rec.scenario.peers.iter() {
+            let unreliable = unreliable_from.get(&p.id).map(|u| *u <= step).unwrap_or(false) || frozen.get(&p.id).map(|fs| *fs <= step && step <= drain.saturating_add(1)).unwrap_or(false);
+            if unreliable {
+                any_uncertain_peer = true;
+            }
+            for lane in KNOWN_LANES.iter() {
+                let open = by_pl.get(&(p.id, lane.to_string())).copied().unwrap_or(false);
+                if unreliable {
+                    // Anything between 0 and "every lane it ever asked about" is possible.
+                    let asked = rec.hist.sent.iter().any(|s| s.peer == p.id && s.epoch == 0 && s.start <= step && matches!(&s.op, Op::Link { lane: l } | Op::Sync { lane: l } if l == lane));
+                    if asked || open {
+                        *maybe.entry(lane.to_string()).or_insert(0) += 1;
+                    }
+                } else if open {
+                    *sure.entry(lane.to_string()).or_insert(0) += 1;
+                }
+            }
+        }
+        let mut total_lo = 0u64;
+        let mut total_hi = 0u64;
+        for lane in KNOWN_LANES.iter() {
+            let lo = sure.get(*lane).copied().unwrap_or(0);
+            let hi = lo + maybe.get(*lane).copied().unwrap_or(0);
+            total_lo += lo;
+            total_hi += hi;
+            if let Some(r) = rec.hist.reports.iter().find(|r| r.step == step && r.lane == *lane) {
+                if r.link_count < lo || r.link_count > hi {
+                    let kind = if any_uncertain_peer { "with_faulty_peer" } else { "all_healthy" };
+                    out.push(Violation::new("C20", "C20.link_count", kind, format!(
+                        "lane {lane}: reported {} uplinks at step {step} but {lo}..{hi} remotes are linked according to the frames they read", r.link_count)));
+                }
+            }
+        }
+        if let Some(r) = rec.hist.reports.iter().find(|r| r.step == step && r.lane == "<aggregate>") {
+            if r.link_count < total_lo || r.link_count > total_hi {
+                let kind = if any_uncertain_peer { "with_faulty_peer" } else { "all_healthy" };
+                out.push(Violation::new("C20", "C20.aggregate_link_count", kind, format!(
+                    "agent: reported {} uplinks at step {step} but {total_lo}..{total_hi} links are open according to the frames read", r.link_count)));
+            }
+            // The aggregate must equal the sum of the lanes reported at the same instant.
+            let sum: u64 = rec.hist.reports.iter().filter(|x| x.step == step && x.lane != "<aggregate>").map(|x| x.link_count).sum();
+            let lanes_reported = rec.hist.reports.iter().filter(|x| x.step == step && x.lane != "<aggregate>").count();
+            if lanes_reported == KNOWN_LANES.len() && sum != r.link_count {
+                out.push(Violation::new("C20", "C20.aggregate_vs_lanes", "", format!("agent reports {} uplinks at step {step} but its lanes report {sum} in total", r.link_count)));
+            }
+        }
+    }
+    // Counters: sums of all snapshots up to quiescence.
+    if let Some(qs) = rec.quiescent_step {
+        let clean = matches!(rec.scenario.ending, Ending::Stop | Ending::Timeout) && rec.stuck_writers.is_empty() && unreliable_from.is_empty();
+        for lane in KNOWN_LANES.iter().copied().chain(["<aggregate>"]) {
+            let ev_sum: u64 = rec.hist.reports.iter().filter(|r| r.step <= qs && r.lane == lane).map(|r| r.event_count).sum();
+            let cmd_sum: u64 = rec.hist.reports.iter().filter(|r| r.step <= qs && r.lane == lane).map(|r| r.command_count).sum();
+            let frames: u64 = rec.hist.frames.iter().filter(|f| f.epoch == 0 && f.step <= qs && (lane == "<aggregate>" || f.lane == lane) && matches!(f.kind, FrameKind::Event(_))).count() as u64;
+            if ev_sum < frames {
+                out.push(Violation::new("C20", "C20.event_count", "lost", format!("{lane}: snapshots add up to {ev_sum} events but remotes read {frames} event frames")));
+            }
+            if clean {
+                let cmds: u64 = rec.hist.sent.iter().filter(|s| s.epoch == 0 && s.ok && s.end <= qs).filter(|s| match &s.op {
+                    Op::Cmd { lane: l, .. } => (lane == "<aggregate>" && KNOWN_LANES.contains(&l.as_str())) || l == lane,
+                    _ => false,
+                }).count() as u64;
+                if cmd_sum != cmds {
+                    out.push(Violation::new("C20", "C20.command_count", if cmd_sum < cmds { "lost" } else { "extra" }, format!("{lane}: snapshots add up to {cmd_sum} commands but {cmds} command envelopes were delivered")));
+                }
+            }
+        }
+    }
+    dedup(out)
+}
